@@ -176,5 +176,14 @@ SpareOK(t) == t \in {"mvhd", "tkhd", "mdhd", "vmhd", "smhd", "stts", "ctts", "st
 
 \* the same box with a 64-bit size header / with n spare bytes appended
 AsLarge(enc) == BoxLarge(Slice(enc, 5, 4), [i \in 1..(Len(enc) - 8) |-> enc[i + 8]])
+\* containers that iterate over their children (child boxes they do not interpret are skipped): the
+\* same box with an unknown child that has a 64-bit size header in front of its first child, and a
+\* small free box after its last
+KidOK(t) == t \in {"moov", "trak", "mdia", "minf", "stbl", "dinf", "udta", "mvex", "moof", "traf", "avc1", "mp4a"}
+KidPrefix(t) == CASE t = "avc1" -> 78 [] t = "mp4a" -> 28 [] OTHER -> 0
+WithKids(t, enc) ==
+  LET p == KidPrefix(t)  n == Len(enc) - 8
+      unk == BoxLarge(<<122, 122, 122, 122>>, <<1, 2, 3>>)  fr == Box(<<102, 114, 101, 101>>, <<>>) IN
+  BE(Len(enc) + Len(unk) + Len(fr), 4) \o Slice(enc, 5, 4) \o Slice(enc, 9, p) \o unk \o [i \in 1..(n - p) |-> enc[8 + p + i]] \o fr
 WithSpare(enc, n) == BE(Len(enc) + n, 4) \o [i \in 1..(Len(enc) - 4) |-> enc[i + 4]] \o Fill(n, 170)
 =============================================================================
